@@ -45,6 +45,20 @@ def sess_value(sid: str) -> int:
 
 
 # ------------------------------------------------------------ sequential part
+def draws(call, n: int, conv, fails: list, what: str) -> list[int]:
+    """n successive draws; a draw that raises is an oracle failure (recorded once) and shows as -1"""
+    vals = []
+    for i in range(n):
+        try:
+            vals.append(conv(call()))
+        except Exception as e:  # noqa
+            if not any(f.get("kind") == "draw-raised" and f.get("line") == what for f in fails):
+                fails.append({"what": f"draw number {i + 1} raised {type(e).__name__}: {e} instead of returning an identifier",
+                              "kind": "draw-raised", "line": what, "real": str(vals[-3:])})
+            vals.append(-1)
+    return vals
+
+
 def sequential(res: Result, rng: random.Random, tier: str, fails: list, div: list):
     h = helpers()
     lines, reals, metas = [], [], []
@@ -53,7 +67,7 @@ def sequential(res: Result, rng: random.Random, tier: str, fails: list, div: lis
     for s in starts:
         g = h.SequenceGenerator()
         g._sequence = s
-        vals = [g.next_sequence() for _ in range(n)]
+        vals = draws(g.next_sequence, n, int, fails, f"GENSEQ seq {s} {n}")
         lines.append(f"GENSEQ seq {s} {n}")
         reals.append(" ".join(map(str, vals)))
         metas.append(("seq", s, vals, SEQ_MAX))
@@ -62,8 +76,7 @@ def sequential(res: Result, rng: random.Random, tier: str, fails: list, div: lis
     for s in sstarts:
         g = h.SessionGenerator("node.x")
         g._sequence = s
-        ids = [g.next_id() for _ in range(n)]
-        vals = [sess_value(i) for i in ids]
+        vals = draws(g.next_id, n, sess_value, fails, f"GENSEQ sess {s} {n}")
         lines.append(f"GENSEQ sess {s} {n}")
         reals.append(" ".join(map(str, vals)))
         metas.append(("sess", s, vals, SESS_MAX))
@@ -98,7 +111,12 @@ def sequential(res: Result, rng: random.Random, tier: str, fails: list, div: lis
             h.random = _Rand(7, start)
             h.time = _Time(t)
             g = h.SessionGenerator(ident)
-            sid = g.next_id(*opts)
+            try:
+                sid = g.next_id(*opts)
+            except Exception as e:  # noqa
+                sid = f"EXC {type(e).__name__}"
+                fails.append({"what": f"next_id raised {type(e).__name__}: {e} for counter value {start}", "kind": "draw-raised",
+                              "line": f"GENSESS {ident} {t} start={start}"})
             after = 1 if start == SESS_MAX else start + 1
             lines.append("GENSESS " + " ".join([ident, str(t), str(after)] + opts))
             reals.append(sid)
@@ -190,13 +208,14 @@ def make_threads(which: str, start: int, nthr: int, k: int, steppers):
 
 
 def outputs(which, threads):
-    if which == "seq":
-        return [list(t.results) for t in threads]
-    return [[sess_value(x) for x in t.results] for t in threads]
+    conv = (lambda x: x) if which == "seq" else sess_value
+    return [[(f"raised {type(x).__name__}" if isinstance(x, Exception) else conv(x)) for x in t.results] for t in threads]
 
 
 def check_outputs(which, outs, mx):
     flat = [v for o in outs for v in o]
+    if any(isinstance(v, str) for v in flat):
+        return "a draw raised instead of returning an identifier: " + next(v for v in flat if isinstance(v, str))
     if 0 in flat or any(v > mx for v in flat):
         return "an identifier handed out to a caller is zero or out of range"
     if len(set(flat)) != len(flat):
@@ -206,8 +225,8 @@ def check_outputs(which, outs, mx):
 
 def schedules(res: Result, rng: random.Random, tier: str, fails: list, div: list, budget=None):
     h = helpers()
-    steppers = {"seq": linesched.stepper(h.SequenceGenerator.next_sequence),
-                "sess": linesched.stepper(h.SessionGenerator.next_id)}
+    steppers = {"seq": linesched.stepper(h.SequenceGenerator.next_sequence, inline_calls=True),
+                "sess": linesched.stepper(h.SessionGenerator.next_id, inline_calls=True)}
     configs = [(2, 1, 3), (2, 2, 3), (3, 1, 3)] if tier == "quick" else [(2, 1, 3), (2, 2, 3), (2, 3, 3), (3, 1, 3), (3, 2, 3), (3, 3, 2)]
     lines, reals = [], []
     total_runs = 0
